@@ -29,6 +29,7 @@ import (
 	"strings"
 	"sync"
 	"sync/atomic"
+	"time"
 
 	"github.com/KevoDB/kevo/pkg/common/iterator"
 	"github.com/KevoDB/kevo/pkg/common/iterator/filtered"
@@ -758,7 +759,12 @@ func runC05Conc(c *Case, out func(string)) {
 		return n
 	}
 	total := 0
-	for r := 0; r < rounds && failMsg.Load() == nil; r++ {
+	// let the writers get going, then scan until enough writes happened under the scans
+	t0 := time.Now()
+	for nWrites.Load() < 5 && time.Since(t0) < 200*time.Millisecond {
+		time.Sleep(time.Millisecond)
+	}
+	for r := 0; (r < rounds || nWrites.Load() < 60) && time.Since(t0) < 600*time.Millisecond && failMsg.Load() == nil; r++ {
 		it, err := e.GetIterator()
 		if err != nil {
 			fail("GetIterator: " + err.Error())
@@ -934,6 +940,12 @@ func genC05(w *bufio.Writer, seed int64, n int, tier string) {
 			// concurrent clause
 			fmt.Fprintf(w, "case %s conc=1 memsize=%d writers=%d rounds=%d bg=%d\n", id, []int{800, 2000, 6000}[r.Intn(3)], 1+r.Intn(3), 10+r.Intn(20), r.Intn(2))
 			nk := 4 + r.Intn(12)
+			for i := 0; i < 5+r.Intn(30); i++ {
+				fmt.Fprintf(w, "put %s %s\n", mkTok([]byte(fmt.Sprintf("old-%03d", r.Intn(60)))), c05Val(r))
+				if r.Intn(8) == 0 {
+					fmt.Fprintf(w, "flush\n")
+				}
+			}
 			for i := 0; i < 10+r.Intn(40); i++ {
 				switch pick(r, 8, 2, 1) {
 				case 0:
